@@ -43,6 +43,7 @@ type checkOpts struct {
 	timeout                                               time.Duration
 	verbose                                               bool
 	jobs                                                  int
+	bindings, recordBindings                              string
 }
 
 func cmdCheck(args []string) int {
@@ -54,6 +55,8 @@ func cmdCheck(args []string) int {
 	fs.StringVar(&o.evidenceDir, "evidence", "/verif/evidence", "evidence output directory")
 	fs.StringVar(&o.replayDir, "replays", "/verif/replays", "replay output directory")
 	fs.StringVar(&o.known, "known", "/verif/known_findings.json", "known findings file")
+	fs.StringVar(&o.bindings, "bindings", "", "recorded types of the locals named by loop invariants (rename tolerance)")
+	fs.StringVar(&o.recordBindings, "record-bindings", "", "write the types of the locals named by loop invariants to this file")
 	fs.StringVar(&o.dumpDir, "dump", "", "dump SMT scripts to this directory")
 	fs.StringVar(&props, "props", "", "comma separated property ids")
 	fs.StringVar(&o.tier, "tier", "quick", "quick or thorough")
@@ -192,6 +195,17 @@ func runCheck(o *checkOpts) int {
 		refAxioms: true, maxPaths: 30000, maxDepth: 4, unitBudget: 90 * time.Second,
 		unmodel: map[string]map[string]bool{}, skipped: map[string]map[string]bool{}, inlined: map[string]map[string]bool{}, trustedCs: map[string]map[string]bool{}, intrUsed: map[string]map[string]bool{}, unitAssume: map[string]map[string]bool{}}
 	packages.Visit(pkgs, nil, func(p *packages.Package) { e.tpkgs[p.PkgPath] = p })
+	if o.bindings != "" {
+		if b, err := os.ReadFile(o.bindings); err == nil {
+			if err := json.Unmarshal(b, &e.bindings); err != nil {
+				fmt.Fprintln(os.Stderr, "govc: bindings file:", err)
+				return 2
+			}
+		}
+	}
+	if o.recordBindings != "" {
+		e.recBindings = map[string]map[string]string{}
+	}
 	for _, sp := range prog.AllPackages() {
 		e.spkgs[sp.Pkg.Path()] = sp
 	}
@@ -634,6 +648,17 @@ func setKeys(m map[string]bool) []string {
 }
 
 func (e *Engine) report(o *checkOpts, units []*Unit, start time.Time, loadSecs, genSecs float64) int {
+	if o.recordBindings != "" {
+		old := map[string]map[string]string{}
+		if b, err := os.ReadFile(o.recordBindings); err == nil {
+			json.Unmarshal(b, &old)
+		}
+		for k, m := range e.recBindings {
+			old[k] = m
+		}
+		b, _ := json.MarshalIndent(old, "", " ")
+		os.WriteFile(o.recordBindings, append(b, '\n'), 0o644)
+	}
 	var known knownFile
 	if data, err := os.ReadFile(o.known); err == nil {
 		json.Unmarshal(data, &known)
